@@ -5,6 +5,7 @@
 mod dao;
 mod frozen;
 mod gen;
+mod maturity;
 mod node;
 mod probes;
 mod run;
@@ -164,8 +165,12 @@ fn main() {
     let mut probes_only = false;
     let mut dao_only: Option<u64> = None;
     let mut fz_only: Option<u64> = None;
+    let mut mat_only: Option<u64> = None;
+    let mut mat_seed = seed;
     // development aid: HX_STREAM=dao runs the DAO lock-size stream alone
     let dao_stream_alone = std::env::var("HX_STREAM").map(|s| s == "dao").unwrap_or(false);
+    // HX_STREAM=maturity runs the cellbase-maturity stream alone
+    let mat_stream_alone = std::env::var("HX_STREAM").map(|s| s == "maturity").unwrap_or(false);
     if let Ok(p) = std::env::var("HX_REPLAY") {
         let v: Value = serde_json::from_str(&fs::read_to_string(&p).expect("replay file")).expect("json");
         let d = v["violations"].get(0).map(|x| x["detail"].clone()).or_else(|| v["cases"].get(0).map(|x| x["case"].clone())).unwrap_or(Value::Null);
@@ -176,6 +181,10 @@ fn main() {
             probes_only = false;
         } else if d["stream"] == "dao-lock-size" {
             dao_only = Some(d["history_index"].as_u64().unwrap_or(0));
+        } else if d["stream"] == "cellbase-maturity" {
+            mat_only = Some(d["history_index"].as_u64().unwrap_or(0));
+            // the history is a function of (seed, index): take the seed the failing run had
+            if let Some(s) = d["seed"].as_u64() { mat_seed = s; }
         } else if let Some(hi) = d["history_index"].as_u64() {
             only = Some(hi);
             n_hist = hi + 1;
@@ -188,12 +197,13 @@ fn main() {
     let mut samples: Vec<Value> = vec![];
     let mut evaluations = 0u64;
     let shards = 8usize;
-    let header = "From CKB Require Import Tx.Cache Tx.SysCache Tx.FrozenCache.";
+    let header = "From CKB Require Import Tx.Cache Tx.SysCache Tx.FrozenCache Tx.CacheMaturity.";
     let mut files: Vec<CaseFile> = (0..shards)
-        .map(|i| { let mut cf = CaseFile::new(&out, &format!("cases_{:02}", i), header); cf.group("vcache", "vcase", "check_vcase"); cf.group("syscache", "sccase", "check_sccase"); cf.group("daocache", "dcase", "check_dcase"); cf.group("frozencache", "fzcase", "check_fzcase"); cf })
+        .map(|i| { let mut cf = CaseFile::new(&out, &format!("cases_{:02}", i), header); cf.group("vcache", "vcase", "check_vcase"); cf.group("syscache", "sccase", "check_sccase"); cf.group("daocache", "dcase", "check_dcase"); cf.group("frozencache", "fzcase", "check_fzcase"); cf.group("matcache", "mcase", "check_mcase"); cf })
         .collect();
     let mut descs: Vec<BTreeMap<String, Vec<Value>>> = (0..shards).map(|_| BTreeMap::new()).collect();
-    if !probes_only && dao_only.is_none() && !dao_stream_alone && fz_only.is_none() {
+    let other_alone = mat_only.is_some() || mat_stream_alone;
+    if !probes_only && dao_only.is_none() && !dao_stream_alone && fz_only.is_none() && !other_alone {
         for hi in 0..n_hist {
             if let Some(o) = only { if o != hi { continue; } }
             let r = std::panic::catch_unwind(std::panic::AssertUnwindSafe(|| run_history(seed, hi, thorough, &scratch)));
@@ -220,7 +230,7 @@ fn main() {
     }
     if std::env::var("HX_TIMING").is_ok() { eprintln!("histories done at {:?}", T0.get().unwrap().elapsed()); }
     let mut probe_results = json!({});
-    if only.is_none() && dao_only.is_none() && !dao_stream_alone && fz_only.is_none() {
+    if only.is_none() && dao_only.is_none() && !dao_stream_alone && fz_only.is_none() && !other_alone {
         let r = std::panic::catch_unwind(std::panic::AssertUnwindSafe(|| {
             let (v1, r1) = probes::probe_assume_valid(&scratch);
             let (mut v2, r2) = probes::probe_negative(&scratch);
@@ -245,7 +255,7 @@ fn main() {
     // DAO lock-size stream: two competing branches on which the RFC0044 rule is waived / applies
     let mut dao_pool_examples: Vec<Value> = vec![];
     let mut dao_samples: Vec<Value> = vec![];
-    if only.is_none() && !probes_only && fz_only.is_none() {
+    if only.is_none() && !probes_only && fz_only.is_none() && !other_alone {
         let o = dao::run(seed, thorough, &scratch, dao_only);
         viol.extend(o.viol);
         for (k, v) in o.stats { *stats.entry(k).or_default() += v; }
@@ -260,9 +270,25 @@ fn main() {
         }
     }
     if std::env::var("HX_TIMING").is_ok() { eprintln!("dao stream done at {:?}", T0.get().unwrap().elapsed()); }
+    // cellbase-maturity stream: two competing branches on which the same transaction is mature / immature
+    let mut mat_samples: Vec<Value> = vec![];
+    if only.is_none() && !probes_only && fz_only.is_none() && dao_only.is_none() && !dao_stream_alone {
+        let o = maturity::run(mat_seed, thorough, &scratch, mat_only);
+        viol.extend(o.viol);
+        for (k, v) in o.stats { *stats.entry(k).or_default() += v; }
+        for k in o.distinct { distinct.insert(k); }
+        mat_samples = o.samples;
+        for (i, (case, desc)) in o.cases.into_iter().enumerate() {
+            let sh = i % shards;
+            files[sh].push(4, case);
+            descs[sh].entry("matcache".into()).or_default().push(desc);
+            evaluations += 1;
+        }
+    }
+    if std::env::var("HX_TIMING").is_ok() { eprintln!("maturity stream done at {:?}", T0.get().unwrap().elapsed()); }
     // read caches in front of a store with a freezer
     let mut fz_samples: Vec<Value> = vec![];
-    if only.is_none() && !probes_only && dao_only.is_none() && !dao_stream_alone {
+    if only.is_none() && !probes_only && dao_only.is_none() && !dao_stream_alone && !other_alone {
         let o = frozen::run(seed, thorough, &scratch, fz_only);
         viol.extend(o.viol);
         for (k, v) in o.stats { *stats.entry(k).or_default() += v; }
@@ -277,7 +303,7 @@ fn main() {
     }
     if std::env::var("HX_TIMING").is_ok() { eprintln!("frozen stream done at {:?}", T0.get().unwrap().elapsed()); }
     // SYSTEM_CELL stream (sets the process-wide cache: after everything else)
-    if only.is_none() && !probes_only && dao_only.is_none() && !dao_stream_alone && fz_only.is_none() {
+    if only.is_none() && !probes_only && dao_only.is_none() && !dao_stream_alone && fz_only.is_none() && !other_alone {
         match std::panic::catch_unwind(|| syscell::run(seed, thorough)) {
             Err(p) => {
                 let msg = p.downcast_ref::<String>().cloned().or_else(|| p.downcast_ref::<&str>().map(|s| s.to_string())).unwrap_or_default();
@@ -305,11 +331,12 @@ fn main() {
     let summary = json!({
         "property": "C14", "seed": seed,
         "evaluations": evaluations, "distinct_nontrivial": distinct.len(),
-        "rule": "histories generated on a real on-disk node (extensions with fee-paying transactions incl. absolute/relative block-number since, proposals, uncles; competing branches that take over and re-commit pending transactions, sometimes with other witnesses; truncations; restarts; injected invalid blocks: a proposed, spendable transaction whose since is not yet met / a transaction with an input dead on that branch), recorded as a step list and replayed on 5 nodes that differ only in caching (all caches 0 = reference; defaults cold; all caches 1; verification cache pre-warmed with the correct entry of every (transaction, witnesses); verification cache poisoned under tx-hash and other-witness keys). Compared with the reference: verdict of every delivery, tip, every block's verification record (verified, txs_fees, cycles, txs_sizes, total difficulty), and at every reorganisation/restart/truncation/end a query battery over every stored block (header, uncles, proposals, extension, tx hashes, get_block, BlockExt, number) twice through store and snapshot, every transaction (transaction info) and every live cell (data, data hash); answers are also compared with the stored content directly. Last stream: resolve_transaction and ResolvedTransaction::check on transactions whose cell deps mix the cached system deps (code cells and dep groups, also repeated or with the other dep type), user dep groups of 0..2048 members, dead / unknown / unparsable deps, with a total expansion aimed at MAX_DEP_EXPANSION_LIMIT +-3, before and after setup_system_cell_cache on a synthetic genesis; cold and warm outcomes must be equal and both are recomputed by the Coq model. DAO lock-size stream: on a chain whose genesis tx0 output #2 (the cell consensus.dao_type_hash() designates) holds the always-success binary and whose starting_block_limiting_dao_withdrawing_lock is 3..7, a trunk and two competing branches commit a DAO deposit and a phase-1 withdraw (deposit cell -> withdrawing cell; lock sizes equal or different; also unpaired shapes) at heights around the limiting block number so that the lock-size rule is waived / applies on either branch; fully valid blocks, full verification, scripts executed; branch A first (the withdraw is verified and cached where valid), then the longer branch B; replayed on 4 nodes (all caches 0 = reference; defaults; verification cache cleared before B; restarted before B): verdicts, tips, verification records and final state must be equal and be what RFC0044 says; for some histories the loose withdraw is then offered to the tx-pool (test_accept_tx, submit_local_tx) of a node that kept its cache and of one whose cache was cleared just before. evaluations = (history, configuration) pairs plus system-cell transactions, each also evaluated by the Coq model; distinct = distinct histories (each >= 5 steps)",
+        "rule": "histories generated on a real on-disk node (extensions with fee-paying transactions incl. absolute/relative block-number since, proposals, uncles; competing branches that take over and re-commit pending transactions, sometimes with other witnesses; truncations; restarts; injected invalid blocks: a proposed, spendable transaction whose since is not yet met / a transaction with an input dead on that branch), recorded as a step list and replayed on 5 nodes that differ only in caching (all caches 0 = reference; defaults cold; all caches 1; verification cache pre-warmed with the correct entry of every (transaction, witnesses); verification cache poisoned under tx-hash and other-witness keys). Compared with the reference: verdict of every delivery, tip, every block's verification record (verified, txs_fees, cycles, txs_sizes, total difficulty), and at every reorganisation/restart/truncation/end a query battery over every stored block (header, uncles, proposals, extension, tx hashes, get_block, BlockExt, number) twice through store and snapshot, every transaction (transaction info) and every live cell (data, data hash); answers are also compared with the stored content directly. Last stream: resolve_transaction and ResolvedTransaction::check on transactions whose cell deps mix the cached system deps (code cells and dep groups, also repeated or with the other dep type), user dep groups of 0..2048 members, dead / unknown / unparsable deps, with a total expansion aimed at MAX_DEP_EXPANSION_LIMIT +-3, before and after setup_system_cell_cache on a synthetic genesis; cold and warm outcomes must be equal and both are recomputed by the Coq model. DAO lock-size stream: on a chain whose genesis tx0 output #2 (the cell consensus.dao_type_hash() designates) holds the always-success binary and whose starting_block_limiting_dao_withdrawing_lock is 3..7, a trunk and two competing branches commit a DAO deposit and a phase-1 withdraw (deposit cell -> withdrawing cell; lock sizes equal or different; also unpaired shapes) at heights around the limiting block number so that the lock-size rule is waived / applies on either branch; fully valid blocks, full verification, scripts executed; branch A first (the withdraw is verified and cached where valid), then the longer branch B; replayed on 4 nodes (all caches 0 = reference; defaults; verification cache cleared before B; restarted before B): verdicts, tips, verification records and final state must be equal and be what RFC0044 says; for some histories the loose withdraw is then offered to the tx-pool (test_accept_tx, submit_local_tx) of a node that kept its cache and of one whose cache was cleared just before. Cellbase-maturity stream: a consensus with a non-zero cellbase_maturity (3..5 blocks' worth as k/len of an epoch, fractions with another denominator that fall between two blocks, a maturity crossed in the next epoch); a trunk and two competing branches commit the SAME transaction T (identical witnesses) which uses a recent cellbase output of the trunk as a cell dep / as an input / both (two cellbases, either maturing later) / as a member of a dep group, at heights around the maturity boundary so that T is mature / immature on A and on B in all four combinations; fully valid blocks, full verification, scripts executed; where T is immature the block committing it is delivered too (on the tip: rejected at once, a sibling carries on; inside a side branch: stored, and the delivery that makes the branch the heavier one must be rejected, then a sibling chain takes over); replayed on 5 nodes (all caches 0 = reference; defaults; verification cache cleared before B; restarted before B; pre-warmed with T's correct entry): verdicts, tips, verification records and final state must be equal and be what the generator's own reading of MaturityVerifier (exact rational arithmetic on the header epochs) and of chain selection says. evaluations = (history, configuration) pairs plus system-cell transactions, each also evaluated by the Coq model; distinct = distinct histories (each >= 5 steps)",
         "distribution": stats, "samples": samples,
         "impl_violations": viol,
         "extra_coverage": {"directed_probes": probe_results, "node_configurations": CONFIGS.iter().map(config_json).collect::<Vec<_>>(),
-                           "frozen_cache_stream": {"samples": fz_samples}, "dao_lock_size_stream": {"samples": dao_samples, "pool_accepts_from_cache_what_it_rejects_cold": dao_pool_examples}},
+                           "frozen_cache_stream": {"samples": fz_samples}, "dao_lock_size_stream": {"samples": dao_samples, "pool_accepts_from_cache_what_it_rejects_cold": dao_pool_examples},
+                           "cellbase_maturity_stream": {"samples": mat_samples}},
     });
     fs::write(out.join("summary.json"), serde_json::to_string_pretty(&summary).unwrap()).unwrap();
     println!("hx-cache: {} (history, configuration) evaluations, {} implementation-side differences ({} without a known signature)", evaluations, summary["impl_violations"].as_array().unwrap().len(), unsigned);
